@@ -140,8 +140,10 @@ theorem C03_waits_only_for_holder (kind : Kind) (as : List Act) (w : Nat) (wd : 
     | replica => rw [← e2', hgs] at hs2; simp [HSt.mayHold] at hs2
     | failedTry => rw [← e2', hgs] at hs2; simp [HSt.mayHold] at hs2
 
-/-- Queue positions only move forward: a hand-off removes the head, a cancellation removes one element,
-arrivals are appended — a waiter is never overtaken (FIFO), so it acquires after finitely many releases. -/
+/-- Three list facts behind "queue positions only move forward": a hand-off takes the head off the queue, the cancellation of
+another waiter does not move `w` backwards, an arrival is appended behind `w`. (A statement about lists only; that the queue of
+the model evolves by exactly these operations is in the action definitions, and the order of service over whole runs is
+`C03_history_fifo`.) -/
 theorem C03_rank (q : List Nat) (h w : Nat) (i : Nat) (hw : q[i]? = some w) (hne : w ≠ h) :
     (∀ m : Entry, (handoff m h).queue = m.queue.tail) ∧
     (∃ j, j ≤ i ∧ (q.erase h)[j]? = some w) ∧ ((q ++ [h])[i]? = some w) := by
@@ -259,9 +261,12 @@ example :
     (∃ sp, applyEvs Spec.init [.acquire 1 7, .wait 2 7] = some sp ∧ 2 ∈ sp.waiting 7) := by
   refine ⟨by decide, _, rfl, by decide⟩
 
-/-- In the abstraction of every reachable state of the concurrent core: whenever somebody waits for a key, either the key's
-guard exists and may release it, or the first waiter may be granted it — the specification, and with Theorem C every run of
-the core, is never stuck on a key (no library-made deadlock; what remains is the client's own lock order and a fair scheduler). -/
+/-- Whenever somebody waits for a key, the specification enables either the release by the key's guard or the grant to the first
+waiter. This is a property of every value of the specification's state type (a case split on `held k`), instantiated at the
+abstraction of reachable states: it says that the specification has no per-key dead end, not that clients make progress. The
+statements about the model are `C03_waits_only_for_holder` and `C03_handoff`; a thread-level theorem "programs that lock one key
+at a time or in ascending order never end with every thread blocked" is **not proved** — that clause is covered by the scheduled
+correspondence only (the oracle reports threads blocked forever under deadlock-free programs). -/
 theorem C03_spec_never_stuck (kind : Kind) (as : List Act) (k : Nat)
     (hw : (absSpec (run (State.init kind) as)).waiting k ≠ []) :
     let sp := absSpec (run (State.init kind) as)
